@@ -106,6 +106,15 @@ func main() {
 				rn.RoundTrip("rt-doc-matrix", pvOf(), t, v, ts)
 			}
 		}
+		for _, str := range []string{"127.0.0.1", "0.0.0.0", "255.255.255.255", "::ffff:127.0.0.1", "::FFFF:c0a8:0101", "0:0:0:0:0:ffff:10.1.2.3", "::ffff:0:0", "::1", "::", "2001:db8::8a2e:370:7334", "2001:0DB8:0000:0000:0000:8A2E:0370:7334", "fe80::1", "64:ff9b::192.0.2.33", "::1.2.3.4", "1:2:3:4:5:6:7:8", "01.2.3.4", "1.2.3", "fe80::1%eth0", "1:2:3:4:5:6:7:8:9", "not an ip"} {
+			rn.RoundTrip("rt-inet-string", pvOf(), mv.Native(gocql.TypeInet), mv.VStr(false, str), []*mv.GTy{mv.TK("ip"), mv.TK("str"), mv.TPtr(mv.TK("ip"))})
+		}
+		for i := 0; i < 15; i++ {
+			rn.RoundTrip("rt-inet-string", pvOf(), mv.Native(gocql.TypeInet), mv.VStr(false, mv.InetString(r)), []*mv.GTy{mv.TK("ip"), mv.TK("str")})
+		}
+		for _, bc := range mv.BytesCases(r) {
+			rn.RoundTrip("rt-bytes-targets", pvOf(), bc.T, bc.V, bc.Gs)
+		}
 		for i := 0; i < 12; i++ {
 			v := mv.PreEpochTime(r)
 			rn.RoundTrip("rt-pre-epoch", pvOf(), mv.Native(gocql.TypeTimestamp), v, []*mv.GTy{mv.TK("time"), mv.TInt(mv.I64, false)})
@@ -181,6 +190,7 @@ func main() {
 	for k, n := range rn.Stat {
 		o.Extra[k] = n
 	}
+	rn.Recheck()
 	o.Extra["coverage_matrix"] = rn.Matrix
 	o.Finish("From GocqlV Require Import Lib.Base C12.Model C12.Spec C12.Corr C02.Corr.", "C02.Corr.case", "C02.Corr.run")
 }
